@@ -109,7 +109,7 @@ def strip_case(case):
     if prog.get("user_skip"):
         out["program"]["user_skip"] = prog["user_skip"]
     for k in ("hook_fault", "cleanup_plan", "cafs", "fail_fast", "raising_cleanup", "rerun_file", "flip_show_skipped", "runtime_switch",
-              "setup_logging_level", "log_habit", "file_filter", "capture_decorated_hooks", "env_without", "hooks_read_status", "row_name_schema", "nested"):
+              "setup_logging_level", "log_habit", "file_filter", "capture_decorated_hooks", "env_without", "hooks_read_status", "row_name_schema", "nested", "locations"):
         if k in case:
             out[k] = case[k]
     return out
